@@ -22,9 +22,13 @@ go build ./... > /tmp/seed/$ID.suite.log 2>&1 && go test -vet=off -count=1 ./...
 FAILS=$(grep -E '^--- FAIL' /tmp/seed/$ID.suite.log | grep -v TestSyslogFilter | awk '{print $3}' | sort -u | paste -sd' ')
 if [ -n "$FAILS" ]; then
   # re-run once the failing tests only (networked tests are flaky under load)
-  PAT=$(echo $FAILS | tr ' ' '|')
-  go test -vet=off -count=1 -run "^($PAT)\$" ./... > /tmp/seed/$ID.suite2.log 2>&1
-  FAILS=$(grep -E '^--- FAIL' /tmp/seed/$ID.suite2.log | awk '{print $3}' | sort -u | paste -sd' ')
+  # networked tests are flaky under load: a test counts as failing only if it fails 3 more times in a row, run alone
+  for try in 1 2 3; do
+    [ -z "$FAILS" ] && break
+    PAT=$(echo $FAILS | tr ' ' '|')
+    go test -vet=off -count=1 -p 1 -run "^($PAT)\$" ./... > /tmp/seed/$ID.suite2.log 2>&1
+    FAILS=$(grep -E '^--- FAIL' /tmp/seed/$ID.suite2.log | awk '{print $3}' | sort -u | paste -sd' ')
+  done
 fi
 mv /tmp/seed/$ID.demo.go "$DEMO"
 echo "$ID: demo-with-change exit=$W  demo-without exit=$WO  suite-fails='${FAILS}'"
